@@ -60,7 +60,8 @@ class Ref:
         self.settle()
 
     def _flatten(self, m, chain):
-        chain = list(m.get("wrap", [])) + chain        # this module's own wrappers are innermost
+        # walking outwards from a statement: the module's own domain definitions, then its own wrappers, then the parent's ...
+        chain = ([["shadow", m["shadow"]]] if m.get("shadow") else []) + list(m.get("wrap", [])) + chain
         self.mods.append((m, chain))
         for s in m["subs"]:
             self._flatten(s, chain)
@@ -156,10 +157,7 @@ class Ref:
             return int(self.fsm_state[e[1]] == e[2])
         if op in ("clk", "rst"):
             # ClockSignal / ResetSignal of a domain *name*, resolved late: renamers around the module apply
-            cur = e[1]
-            for w in self.cur_chain:
-                if w[0] == "rename":
-                    cur = w[1].get(cur, cur)
+            cur, _ctl = self.effective(self.cur_chain, e[1])
             return (self.clk if op == "clk" else self.rst)[cur]
         raise AssertionError(op)
 
@@ -313,9 +311,13 @@ class Ref:
     def effective(self, chain, dom):
         """Follow the wrapper chain (innermost first): -> (final domain name, [("rst"|"en", control signal index)])."""
         cur = dom
+        key = None      # the domain object, once a definition of the current name is met on the way out (None: the outermost one)
         ctl = []
         for w in chain:
-            if w[0] == "rename":
+            if w[0] == "shadow":
+                if key is None and cur in w[1]:
+                    key = w[1][cur]
+            elif w[0] == "rename":
                 cur = w[1].get(cur, cur)
             elif w[0] == "reset" and w[1] == cur:
                 ctl.append(("rst", w[2]))
@@ -325,7 +327,7 @@ class Ref:
                 for d, c in w[1]:
                     if d == cur:
                         ctl.append(("rst" if w[0] == "reset_multi" else "en", c))
-        return cur, ctl
+        return (key if key is not None else cur), ctl
 
     def _async_load(self, dom):
         """registers of `dom` (after renaming) take their initial values at once, reset-less ones excepted"""
